@@ -635,6 +635,25 @@ def forged_wellknown_sender_case():
     return None
 
 
+def sender_rule_case():
+    """a rule that names the emitter - by the well-known name it owns or by its unique name - matches the emitter's broadcasts"""
+    from txdbus import message
+    net = Net()
+    a, b, c = net.connect(), net.connect(), net.connect()
+    N = 'org.verif.Service'
+    a.call_bus('RequestName', 'su', [N, 0])
+    b.call_bus('AddMatch', 's', ["type='signal',sender='%s'" % N])
+    c.call_bus('AddMatch', 's', ["type='signal',sender='%s',member='S'" % a.name])
+    for p in (a, b, c):
+        p.drain()
+    a.send(message.SignalMessage('/o', 'S', 'org.e.I', signature='s', body=['x']))
+    for who, how in ((b, 'the well-known name %s it owns' % N), (c, 'its unique name')):
+        got = [x for x in who.drain() if getattr(x, 'member', None) == 'S']
+        if len(got) != 1 or got[0].sender != a.name:
+            return 'a subscriber whose rule names the emitter by %s received %r of its broadcast' % (how, [(x.sender, x.body) for x in got])
+    return None
+
+
 def big_endian_client_case():
     """a message encoded big-endian by its sender arrives decodable with the same header fields and body"""
     from . import message_harness as MH
@@ -742,7 +761,7 @@ def takeover_by_waiter_case():
 
 def bounded(tier, seed):
     n = 0
-    for case in (late_loss_of_refused_connection_case, order_case, prehello_case, dead_subscriber_case, takeover_case, namespace_subscription_case, forged_wellknown_sender_case, big_endian_client_case, withdrawn_claim_case, takeover_by_waiter_case):
+    for case in (late_loss_of_refused_connection_case, order_case, prehello_case, dead_subscriber_case, takeover_case, namespace_subscription_case, forged_wellknown_sender_case, sender_rule_case, big_endian_client_case, withdrawn_claim_case, takeover_by_waiter_case):
         n += 1
         try:
             f = case()
